@@ -85,13 +85,13 @@ theorem single_part_never_absent (cfg : Config) (p : List GoString) (h : p.lengt
   simp [evaluateNotPresent, h]
 
 /-- failing for any reason other than ErrNotFound is an error: index out of range, a step into
-    a scalar, an ignored field, a key that cannot be coerced …  (The former exclusion "the failure
-    is not `unmodelled`" is gone: `Get` never answers `unmodelled`, `Proofs.Keys.get_ne_unmodelled`.
-    What remains excluded is the library's own panic on a key type like `*[1][]int`,
-    `Proofs.Keys.getStep_panic`, which is not an error return.) -/
+    a scalar, an ignored field, a key that cannot be coerced, and — since `getValue` walks through
+    `safeGet` (repair of finding F12) — a panic raised inside the walk (`GetErr.panic`: a key type
+    like `*[1][]int`, `Proofs.Keys.getStep_panic`).  No exclusion is left: `Get` never answers
+    `unmodelled` (`Proofs.Keys.get_ne_unmodelled`). -/
 theorem other_failure_is_error (path p : List GoString) (e : GetErr)
     (hp : resolveLocals o.locals.reverse path = .ok (.inr p)) (hg : get o.cfg p d = .error e)
-    (hne : e ≠ .notFound) (hnp : e ≠ .panic) : getValue o d path = .error := by
+    (hne : e ≠ .notFound) : getValue o d path = .error := by
   have hnu : e ≠ .unmodelled := fun h => Proofs.Keys.get_ne_unmodelled _ _ _ (h ▸ hg)
   unfold getValue
   cases e <;> simp_all
